@@ -401,11 +401,30 @@ def neighbours(m, t, av, rnd, pkg):
                         rel = 'unrelated_union'
                     try:
                         oav = ValueGen(m, rnd, max_depth=2).union_value(x, 1)
-                        if rel == 'child_union' and oav.tag in [f.name for f in m.union_all_fields(d)]:
-                            continue   # built through inherited helpers: really an instance of the parent class
-                        out.append((rel, oav))
                     except Uninhabited:
-                        pass
+                        continue
+                    # a void tag is a ready instance of the class that declares it
+                    # (possibly an ancestor): judge the class the value really has
+                    actual = x
+                    if oav.value is None:
+                        for u in m.chain(x):
+                            names = [f.name for f in m.own_fields(u)]
+                            if m.union_declares_other(u):
+                                names.append('other')
+                            if oav.tag in names:
+                                actual = u
+                                break
+                    oav = UV(actual.ns, actual.name, oav.tag, oav.value)
+                    anc_d = [(a.ns, a.name) for a in m.ancestors(d)]
+                    if (actual.ns, actual.name) == (d.ns, d.name):
+                        rel = 'same_union'
+                    elif (actual.ns, actual.name) in anc_d:
+                        rel = 'parent_union'
+                    elif (d.ns, d.name) in [(a.ns, a.name) for a in m.ancestors(actual)]:
+                        rel = 'child_union'
+                    else:
+                        rel = 'unrelated_union'
+                    out.append((rel, oav))
             out.append(('object_for_union', Raw(object(), NOT_AV)))
             out.append(('string_for_union', Raw(av.tag, NOT_AV)))
     return out
